@@ -1,5 +1,5 @@
 SPECIFICATION TraceSpec
-CONSTANT P = 31723
+CONSTANT P = 79
 POSTCONDITION TraceAccepted
-INVARIANT PendingClosed
+INVARIANT TraceInv
 CHECK_DEADLOCK FALSE
